@@ -16,7 +16,7 @@ from ..core.runner import Result
 from ..core import histworld as H
 from ..core.termio import INT, REAL, BOOL, mk_type
 
-ALL = ["F%d" % i for i in range(1, 18)]
+ALL = ["F%d" % i for i in range(1, 18)] + ["F21"]
 
 
 class InjectedInterrupt(KeyboardInterrupt):
@@ -93,6 +93,10 @@ def failing_events(names, quick):
     for n in names:
         for sym in ("a", "b", "x", "y", "r", "u"):
             evs.append(("subst_bad", n, sym))
+    # the same with a map of five entries (four good ones and a type-breaking one), on the formulas with a quantifier
+    for n in ("F4", "F21", "F9"):
+        for sym in ("a", "x", "y"):
+            evs.append(("subst_bad4", n, sym))
     for t in SMT_TEXTS:
         toks = _tokens(SMT_TEXTS[t])
         for cut in range(1, len(toks)):
@@ -205,6 +209,12 @@ class World(H.World):
                 sym = self.S[ev[2]]
                 bad = self.S[BAD_VALUE[H.UNIVERSE_SYMS[ev[2]]]]
                 self.env.substituter.substitute(f, {sym: bad})
+            elif k == "subst_bad4":
+                f = self.F[ev[1]]
+                sub = dict(H.SUBST_MAPS["4keys"](self.m, self.S))
+                sub[self.S["st"]] = self.m.String("zz")
+                sub[self.S[ev[2]]] = self.S[BAD_VALUE[H.UNIVERSE_SYMS[ev[2]]]]
+                self.env.substituter.substitute(f, sub)
             elif k == "parse_smt_cut":
                 toks = _tokens(SMT_TEXTS[ev[1]])[:ev[2]]
                 self.smt_parser.get_script(StringIO(" ".join(toks))).get_last_formula(self.m)
